@@ -9,6 +9,7 @@ import (
 	"io"
 	"net/http"
 	"strings"
+	"time"
 
 	"github.com/go-jose/go-jose/v3"
 	"go.opentelemetry.io/otel/trace"
@@ -302,6 +303,16 @@ func (f *Fosite) authorizeRequestFromPAR(ctx context.Context, r *http.Request, r
 	var err error
 	if parRequest, err = storage.GetPARSession(ctx, requestURI); err != nil {
 		return false, errorsx.WithStack(ErrInvalidRequestURI.WithHint("Invalid PAR session").WithWrap(err).WithDebug(err.Error()))
+	}
+
+	// A pushed authorization request is only valid for the lifetime advertised in the PAR response.
+	if session := parRequest.GetSession(); session != nil {
+		if expiresAt := session.GetExpiresAt(PushedAuthorizeRequestContext); !expiresAt.IsZero() && expiresAt.Before(time.Now().UTC()) {
+			if err := storage.DeletePARSession(ctx, requestURI); err != nil {
+				return false, errorsx.WithStack(ErrServerError.WithWrap(err).WithDebug(err.Error()))
+			}
+			return false, errorsx.WithStack(ErrInvalidRequestURI.WithHint("The request_uri has expired."))
+		}
 	}
 
 	// hydrate the request object
